@@ -12,8 +12,10 @@
 import Mux.Proofs.AddDecide
 import Mux.Proofs.AmbigOne
 import Mux.Proofs.P9Examples
+import Mux.Proofs.AmbigSplit
+import Mux.Proofs.ResolveAllEval
 namespace Mux.C17
-open Mux Mux.P9
+open Mux Mux.P9 Mux.P10 Mux.P16
 
 /-! ## A. Decision logic -/
 
@@ -78,9 +80,15 @@ theorem C17_dup_live_class (t : Tree) (p : Bytes) (h : Handler) (ms : List Nat) 
 /-- **No false `ambiguous`.** If `Tree.add` answers `ambiguous`, the ambiguity check found a node:
 there is a chain of existing nodes from the root to a node WITH HANDLERS such that the new pattern
 text is consumed step by step along the chain (`AmbPath`, `Mux/Proofs/AddAtomic.lean`) — each step
-either because the node's text is a literal prefix of the remaining pattern, or because the node's
-segment `isAmbiguous` with the first segment of the remaining pattern (same kind, rule, suffix,
-endpoint; different name or `-` flag) — and at least one step is of the second kind. -/
+either because the node's text is a literal prefix of the remaining pattern (`AmbPath.lit`), or because
+the node's segment `isAmbiguous` with the first segment of the remaining pattern (same kind, rule,
+suffix, endpoint; different name or `-` flag: `AmbPath.amb`), or — the branch added by the D33 repair,
+`AmbPath.pre` — because the node is the upper half of a parameter node that was split: its segment is
+the same token as the first segment of the remaining pattern up to the name or the `-` flag and its
+literal suffix is a PROPER PREFIX of that segment's suffix (`isAmbiguousPrefix`); the walk then goes
+on below the node with what follows the token and that shorter suffix.  At least one step is of the
+second or third kind.  (The statement is unchanged; the certificate `AmbPath` gained the constructor
+`pre`, so the theorem covers the new branch as well.) -/
 theorem C17_ambiguous_sound (t : Tree) (p : Bytes) (h : Handler) (ms : List Nat) (methods : List Bytes)
     (he : t.add p h ms methods = .error .ambiguous) :
     t.root.checkAmb t.ic p false = .ok (some true) ∧
@@ -89,7 +97,10 @@ theorem C17_ambiguous_sound (t : Tree) (p : Bytes) (h : Handler) (ms : List Nat)
         steps.any (·.2) = true :=
   add_ambiguous_sound t p h ms methods he
 
-/-- `C17_no_false` of DESIGN.md, in the form available without a textual `eraseNames`. -/
+/-- `C17_no_false` of DESIGN.md, in the form available without a textual `eraseNames`.  The certificate
+`AmbPath` has a constructor for each of the three ways `checkAmbiguous` descends (literal prefix,
+`isAmbiguous`, and — since the D33 repair — `isAmbiguousPrefix`), so this covers every `ambiguous`
+verdict of the repaired check; see `C17_ambig_prefix_sound` for the form on reachable trees. -/
 theorem C17_no_false (t : Tree) (p : Bytes) (h : Handler) (ms : List Nat) (methods : List Bytes)
     (he : t.add p h ms methods = .error .ambiguous) :
     ∃ (m : Node) (steps : List (Seg × Bool)),
@@ -105,13 +116,183 @@ and endpoint flag but another name or `-` flag (`NameVariant`). Then `Handle p` 
 `ambiguous` (whatever handler, middlewares and methods), and the tree is unchanged. -/
 theorem C17_ambig_one (name : Bytes) (ic : Interceptors) (nf : Handler) (tr : Option Handler) (ob nb : Base)
     (q p : Bytes) (h : Handler) (ms : List Nat) (methods : List Bytes) (t1 : Tree)
-    (hq : WfPattern q) (hp : WfPattern p)
+    (hq : P9.WfPattern q) (hp : P9.WfPattern p)
     (he : (Tree.new name ic nf tr ob nb).add q h ms methods = .ok t1)
     (psegs qsegs : List Seg) (hsp : split ic p = .ok psegs) (hsq : split ic q = .ok qsegs)
     (hu : UpToNames psegs qsegs) (hne : p ≠ q) (h' : Handler) (ms' : List Nat) (methods' : List Bytes) :
     t1.add p h' ms' methods' = .error .ambiguous ∧ t1.step (.add p h' ms' methods') = t1 := by
   have := ambig_one name ic nf tr ob nb hq hp he hsp hsq hu hne h' ms' methods'
   exact ⟨this, by simp only [Tree.step, this]⟩
+
+/-- **`C17_ambig_prefix_sound`: the branch added by the D33 repair never produces a false positive.** On the tree
+of any history with well-formed patterns (`ReachWf`), if `Handle p` is refused as `ambiguous` then the certificate
+exists: a chain of existing nodes from the root to a node WITH HANDLERS along which the text of `p` is consumed
+(`AmbPath`), at least one step being a parameter step.  The certificate has a constructor for each way the check
+descends; for the new one, `AmbPath.pre`, the node `c` is not a textual prefix of the rest of the pattern, `Split`
+accepts the rest with first segment `s0`, `c.seg.isAmbiguousPrefix s0` (same kind and rule, other name or `-`
+flag, `c`'s literal suffix a PROPER prefix of `s0`'s), and the walk continues below `c` after the token and that
+shorter suffix — the offset lies inside the pattern (`ambPrefix_offset_le`, no fault 252).  All nodes of the chain
+satisfy I-seg (`SegOk`: each is `NewSegment` of its own well-formed text), so the comparison the steps made is a
+comparison of real tokens.  (This is `C17_no_false` with the invariants of reachable trees added; both cover the
+new branch because `AmbPath` does.) -/
+theorem C17_ambig_prefix_sound (t : Tree) (hr : ReachWf t) (p : Bytes) (h : Handler) (ms : List Nat)
+    (methods : List Bytes) (he : t.add p h ms methods = .error .ambiguous) :
+    ∃ (m : Node) (steps : List (Seg × Bool)),
+      AmbPath t.ic t.root p m steps ∧ Chain t.root (steps.map (·.1)) m ∧ m.handlers ≠ [] ∧
+      (∃ sb ∈ steps, sb.2 = true) ∧ (∀ sb ∈ steps, SegOk t.ic sb.1) ∧
+      m.pattern = (steps.map (·.1.value)).flatten ∧ m.pattern ∈ (tableOf t).patterns := by
+  obtain ⟨_, m, steps, h1, h2, h3, h4⟩ := add_ambiguous_sound t p h ms methods he
+  have hok := Mux.P13.reach_chain_segOk hr h2
+  have hpat := Mux.P13.reach_chain_pattern hr h2
+  rw [List.map_map] at hpat
+  have hne : steps.map (·.1) ≠ [] := by
+    intro e
+    rw [List.map_eq_nil_iff] at e
+    rw [e] at h4
+    simp at h4
+  refine ⟨m, steps, h1, h2, h3, by simpa using h4, ?_, hpat, ?_⟩
+  · intro sb hsb
+    exact hok sb.1 (List.mem_map_of_mem hsb)
+  · have := live_chain_mem hr h2 hne h3
+    rw [List.map_map] at this
+    rw [hpat]; exact this
+
+/-- What a step of the new branch (`AmbPath.pre`) compares and skips, textually: the node's segment is `{bc}suf`, the
+first segment of the rest of the pattern is `{b0}suf·d` with `d ≠ []`; the two tokens have the same kind and the
+same rule text but different bodies (another name or `-` flag); the step skips `{b0}suf` — the node's own text up
+to the parameter name — and leaves `d …` to the node's children.  So a `pre` step, like an `amb` step, consumes
+text that equals the node's text up to the parameter name / `-` flag. -/
+theorem C17_ambig_prefix_consumed (ic : Interceptors) (c s0 : Seg) (hc : SegOk ic c) (h0 : SegOk ic s0)
+    (hp : c.isAmbiguousPrefix s0 = true) (pat : Bytes) (hpre : s0.value <+: pat) :
+    ∃ bc b0 d, c.value = tok bc c.suffix ∧ s0.value = tok b0 (c.suffix ++ d) ∧ d ≠ [] ∧ bc ≠ b0 ∧
+      bodyRule bc = bodyRule b0 ∧ c.kind = s0.kind ∧
+      pat.take (s0.value.length - s0.suffix.length + c.suffix.length) = tok b0 c.suffix ∧
+      pat.drop (s0.value.length - s0.suffix.length + c.suffix.length) = d ++ pat.drop s0.value.length :=
+  ambPrefix_consumed hc h0 hp hpre
+
+/-- The new slice of the repaired check is in bounds: whenever the `isAmbiguousPrefix` branch is taken on an
+accepted rest `pat` of the pattern (first segment `s0`), the offset `len(s0.Value) - len(s0.Suffix) +
+len(seg.Suffix)` does not exceed `len(pat)`; hence `checkAmbiguous` fails with a syntax error of the pattern
+only, never with a fault (`checkAmb_error`). -/
+theorem C17_ambig_prefix_in_bounds (ic : Interceptors) (pat : Bytes) (s0 : Seg) (segs : List Seg) (c : Seg)
+    (hs : split ic pat = .ok (s0 :: segs)) (hp : c.isAmbiguousPrefix s0 = true) :
+    s0.value.length - s0.suffix.length + c.suffix.length ≤ pat.length ∧
+      ∀ (n : Node) (has : Bool) (e : Err), n.checkAmb ic pat has = .error e → SynErr e :=
+  ⟨ambPrefix_offset_le hs hp, fun n has e he => checkAmb_error ic n pat has e he⟩
+
+/-- **`C17_ambig_one_history`.** `t` is the tree of ANY history of `Handle`/`Remove`/`Clean`/`Use` whose
+registered patterns are well-formed, and its route table holds exactly ONE pattern `q`.  `p ≠ q` is an accepted
+well-formed pattern identical to `q` up to parameter names: `Split` of the two yields segment lists that agree one
+by one — the same text, or a parameter with the same kind, rule, suffix and endpoint flag but another name or `-`
+flag (`UpToNames`, as in `C17_ambig_one`).  Then `Handle p` is refused as `ambiguous`, whatever handler,
+middlewares and methods, and the tree is unchanged.
+
+Unlike `C17_ambig_one` the tree need not be the linear chain a single `Handle` builds: after
+`Handle("/{a}/x")`, `Handle("/{a}/y")`, `Remove("/{a}/y")` the node of `{a}/x` is split (`{a}/` above `x`), and
+the check reaches the route through the branch the D33 repair added (`isAmbiguousPrefix`).  Proof
+(`Mux/Proofs/AmbigSplit.lean`): every node on the chain to `q` carries a literal piece of `q` or a whole token of
+`q` with a prefix of the literal text after it; at each level the loop of `checkAmbiguous` descends into the chain
+node through the literal-prefix, the `isAmbiguous` or the `isAmbiguousPrefix` branch (`ambStep_chain`); a sibling
+tried before it cannot answer "found, not ambiguous", since then `p` itself would be a live route
+(`checkAmb_chain_rej`), and cannot fail, since every `Split` the check calls is a `Split` of a rest of the accepted
+pattern `p` (`checkAmb_good`). -/
+theorem C17_ambig_one_history (name : Bytes) (ic : Interceptors) (nf : Handler) (tr : Option Handler) (ob nb : Base)
+    (ops : List TOp) (hops : ∀ op ∈ ops, PatOk op) (q p : Bytes)
+    (hone : (tableOf ((Tree.new name ic nf tr ob nb).run ops)).patterns = [q]) (hp : P9.WfPattern p)
+    (psegs qsegs : List Seg) (hsp : split ic p = .ok psegs) (hsq : split ic q = .ok qsegs)
+    (hu : UpToNames psegs qsegs) (hne : p ≠ q) (h : Handler) (ms : List Nat) (methods : List Bytes) :
+    let t := (Tree.new name ic nf tr ob nb).run ops
+    t.add p h ms methods = .error .ambiguous ∧ t.step (.add p h ms methods) = t := by
+  intro t
+  have hr : ReachWf t := ⟨name, ic, nf, tr, ob, nb, ops, hops, rfl⟩
+  have hic : t.ic = ic := (sameCfg_run (Tree.new name ic nf tr ob nb) ops).2.2.1
+  have he := ambig_one_history hr hone hp (by rw [hic]; exact hsp) (by rw [hic]; exact hsq) hu hne h ms methods
+  exact ⟨he, by simp only [Tree.step, he]⟩
+
+/-- The same for a tree known to be reachable (`ReachWf`), with the tree's own interceptor table. -/
+theorem C17_ambig_one_reach (t : Tree) (hr : ReachWf t) (q p : Bytes) (hone : (tableOf t).patterns = [q])
+    (hp : P9.WfPattern p) (psegs qsegs : List Seg) (hsp : split t.ic p = .ok psegs) (hsq : split t.ic q = .ok qsegs)
+    (hu : UpToNames psegs qsegs) (hne : p ≠ q) (h : Handler) (ms : List Nat) (methods : List Bytes) :
+    t.add p h ms methods = .error .ambiguous ∧ t.step (.add p h ms methods) = t := by
+  have he := ambig_one_history hr hone hp hsp hsq hu hne h ms methods
+  exact ⟨he, by simp only [Tree.step, he]⟩
+
+/-- On the tree of a history with well-formed patterns the ambiguity check never FAILS on an accepted well-formed
+pattern (no syntax error from the `Split` calls on the rests of the pattern, no fault from the slices, the new one
+of the D33 repair included): it answers "no node", "found" or "found, ambiguous". -/
+theorem C17_checkAmb_total (t : Tree) (hr : ReachWf t) (p : Bytes) (hp : P9.WfPattern p) (psegs : List Seg)
+    (hsp : split t.ic p = .ok psegs) : ∃ a, t.root.checkAmb t.ic p false = .ok a := by
+  cases hc : t.root.checkAmb t.ic p false with
+  | ok a => exact ⟨a, rfl⟩
+  | error e => exact absurd hc (checkAmb_good t.ic t.root (reach_segOk hr) p false e (goodRest_of_split hp hsp))
+
+/-! ### The D33 history, evaluated by the kernel -/
+
+/-- The error of a `Handle`, if any. -/
+def addErr (r : Except Err Tree) : Option Err :=
+  match r with
+  | .error e => some e
+  | .ok _ => none
+
+theorem addErr_some {r : Except Err Tree} {e : Err} (h : addErr r = some e) : r = .error e := by
+  cases r with
+  | error e' => simp only [addErr, Option.some.injEq] at h; rw [h]
+  | ok _ => cases h
+
+theorem addErr_none {r : Except Err Tree} (h : addErr r = none) : ∃ t', r = .ok t' := by
+  cases r with
+  | error e' => cases h
+  | ok t' => exact ⟨t', rfl⟩
+
+/-- `/{a}/x` -/
+def exAX : Bytes := [47, 123, 97, 125, 47, 120]
+/-- `/{a}/y` -/
+def exAY : Bytes := [47, 123, 97, 125, 47, 121]
+/-- `/{b}/x` -/
+def exBX : Bytes := [47, 123, 98, 125, 47, 120]
+/-- `/{-a}/x` -/
+def exIgnAX : Bytes := [47, 123, 45, 97, 125, 47, 120]
+/-- `Handle("/{a}/x")`, `Handle("/{a}/y")`, `Remove("/{a}/y")`: the parameter node stays split (`{a}/` above `x`). -/
+def exSplitOps : List TOp :=
+  [.add exAX { base := .user 1 } [] [mGET], .add exAY { base := .user 2 } [] [mGET], .remove exAY []]
+
+/-- `/{id}/abc` -/
+def exIdAbc : Bytes := [47, 123, 105, 100, 125, 47, 97, 98, 99]
+/-- `/{id}/author` -/
+def exIdAuthor : Bytes := [47, 123, 105, 100, 125, 47, 97, 117, 116, 104, 111, 114]
+/-- `/{x}/abc` -/
+def exXAbc : Bytes := [47, 123, 120, 125, 47, 97, 98, 99]
+/-- `/{x}/abd` -/
+def exXAbd : Bytes := [47, 123, 120, 125, 47, 97, 98, 100]
+/-- `/{x}/a` -/
+def exXA : Bytes := [47, 123, 120, 125, 47, 97]
+/-- `Handle("/{id}/abc")`, `Handle("/{id}/author")`: the node `{id}/a` with the children `bc` and `uthor`. -/
+def exForkOps : List TOp :=
+  [.add exIdAbc { base := .user 1 } [] [mGET], .add exIdAuthor { base := .user 2 } [] [mGET]]
+
+/-- **`C17_split_variant_rejected` (D33).** After `Handle("/{a}/x")`, `Handle("/{a}/y")`, `Remove("/{a}/y")` the
+only route is `/{a}/x`, stored as the split node `{a}/` above `x`; `Handle("/{b}/x")` and `Handle("/{-a}/x")` —
+the same pattern up to the parameter name, resp. the `-` flag — are refused as `ambiguous` (before the repair they
+were accepted: the check compared `{b}/x` with the stored upper half `{a}/` and found different suffixes).  With the
+sibling still live — `Handle("/{id}/abc")`, `Handle("/{id}/author")` — `Handle("/{x}/abc")` is refused as
+`ambiguous`, while `Handle("/{x}/abd")` and `Handle("/{x}/a")`, which are not a live route up to names, are
+accepted: the new branch descends into `{id}/a` and finds no node with handlers.  Evaluated by the kernel. -/
+theorem C17_split_variant_rejected :
+    ((exT0.run exSplitOps).add exBX { base := .user 3 } [] [mGET] = .error .ambiguous ∧
+     (exT0.run exSplitOps).add exIgnAX { base := .user 3 } [] [mGET] = .error .ambiguous) ∧
+    ((exT0.run exForkOps).add exXAbc { base := .user 3 } [] [mGET] = .error .ambiguous ∧
+     (∃ t', (exT0.run exForkOps).add exXAbd { base := .user 3 } [] [mGET] = .ok t') ∧
+     (∃ t', (exT0.run exForkOps).add exXA { base := .user 3 } [] [mGET] = .ok t')) := by
+  refine ⟨⟨addErr_some ?_, addErr_some ?_⟩, addErr_some ?_, addErr_none ?_, addErr_none ?_⟩
+  · mux_eval2 [exSplitOps, exT0, addErr]
+  · mux_eval2 [exSplitOps, exT0, addErr]
+  · mux_eval2 [exForkOps, exT0, addErr]
+  · mux_eval2 [exForkOps, exT0, addErr]
+  · mux_eval2 [exForkOps, exT0, addErr]
+
+/-- The table of the D33 history holds the single pattern `/{a}/x`: the hypothesis of `C17_ambig_one_history`. -/
+theorem exSplitOps_table : (tableOf (exT0.run exSplitOps)).patterns = [exAX] := by
+  mux_eval2 [exSplitOps, exT0]
 
 /-! ## B. The stages after the validation cannot fail -/
 
@@ -120,7 +301,7 @@ check does not object, `Split` accepts the pattern and the method list is valid,
 SUCCEEDS — `getNode`, `Segment.Split`, `sort`, `buildIndexes` and the handler loop cannot fail (no
 fault, no late error) — and the new tree is well-formed again. -/
 theorem C17_validated_ok (t : Tree) (p : Bytes) (h : Handler) (ms : List Nat) (methods : List Bytes)
-    (hwf : WellFormedTree t) (hp : WfPattern p)
+    (hwf : WellFormedTree t) (hp : P9.WfPattern p)
     {a : Option Bool} (hamb : t.root.checkAmb t.ic p false = .ok a) (ha : a ≠ some true)
     {segs : List Seg} (hs : split t.ic p = .ok segs)
     (hm : t.checkMethods p (effMethods methods) [] = .ok ()) :
@@ -132,7 +313,7 @@ theorem C17_validated_ok (t : Tree) (p : Bytes) (h : Handler) (ms : List Nat) (m
 before the first mutation: `ambiguous`, a syntax error of the pattern, or an error of the method
 list. -/
 theorem C17_error_is_validation (t : Tree) (p : Bytes) (h : Handler) (ms : List Nat) (methods : List Bytes)
-    (hwf : WellFormedTree t) (hp : WfPattern p) (e : Err) (he : t.add p h ms methods = .error e) :
+    (hwf : WellFormedTree t) (hp : P9.WfPattern p) (e : Err) (he : t.add p h ms methods = .error e) :
     e = .ambiguous ∨ SynErr e ∨ MethErr e :=
   add_error_class h ms methods hwf hp he
 
@@ -169,7 +350,7 @@ theorem C17_cut_inside_token_repaired :
 
 -- the hypotheses of `C17_validated_ok` on the empty tree, pattern `/u/{id}`, methods `GET, POST`
 example : WellFormedTree exT0 := wellFormed_new _ _ _ _ _ _
-example : WfPattern exUid := wfPattern_exUid
+example : P9.WfPattern exUid := wfPattern_exUid
 example : exT0.root.checkAmb exT0.ic exUid false = .ok none := by rfl
 example : (split exT0.ic exUid).isOk = true := by decide
 example : exT0.checkMethods exUid (effMethods [mGET, mPOST]) [] = .ok () := by rfl
@@ -205,8 +386,37 @@ example : ∃ t1, exT0.add exUid { base := .user 1 } [] [mGET] = .ok t1 := by
   obtain ⟨t1, h, _⟩ := C17_validated_ok exT0 exUid { base := .user 1 } [] [mGET] (wellFormed_new _ _ _ _ _ _)
     wfPattern_exUid (a := none) (by rfl) (by simp) (segs := _) (by rfl) (by rfl)
   exact ⟨t1, h⟩
-example : WfPattern exUx := wfPattern_exUx
+example : P9.WfPattern exUx := wfPattern_exUx
 example : split [] exUx = .ok exUxSegs ∧ split [] exUid = .ok exUidSegs ∧ UpToNames exUxSegs exUidSegs ∧
     exUx ≠ exUid := ⟨by rfl, by rfl, upToNames_ex, by decide⟩
+
+-- the hypotheses of `C17_ambig_one_history` on the D33 history: table `[/{a}/x]` (`exSplitOps_table`), `p = /{b}/x`
+theorem wfPattern_exAXY (n c : UInt8) (hn : ([n] : Bytes) = [97] ∨ ([n] : Bytes) = [98])
+    (hc : ([c] : Bytes) = [120] ∨ ([c] : Bytes) = [121]) : P9.WfPattern [47, 123, n, 125, 47, c] := by
+  have : splitString [47, 123, n, 125, 47, c] = [[47], [123, n, 125, 47, c]] := by
+    rcases hn with hn | hn <;> rcases hc with hc | hc <;> cases hn <;> cases hc <;> decide
+  intro v hv
+  rw [this] at hv
+  simp only [List.mem_cons, List.not_mem_nil, or_false] at hv
+  rcases hv with rfl | rfl
+  · exact .inl ⟨by decide, by decide⟩
+  · refine .inr ⟨[n], [47, c], rfl, ?_, ?_⟩
+    · rcases hn with hn | hn <;> cases hn <;> exact ⟨by decide, by decide⟩
+    · rcases hc with hc | hc <;> cases hc <;> exact ⟨by decide, by decide⟩
+example : ∀ op ∈ exSplitOps, PatOk op := by
+  intro op hop
+  simp only [exSplitOps, List.mem_cons, List.not_mem_nil, or_false] at hop
+  rcases hop with rfl | rfl | rfl
+  · exact wfPattern_exAXY 97 120 (.inl rfl) (.inl rfl)
+  · exact wfPattern_exAXY 97 121 (.inl rfl) (.inr rfl)
+  · trivial
+example : P9.WfPattern exBX := wfPattern_exAXY 98 120 (.inr rfl) (.inl rfl)
+example : split [] exBX = .ok [{ value := [47] }, { value := [123, 98, 125, 47, 120], kind := .named, name := [98], suffix := [47, 120] }] ∧
+    split [] exAX = .ok [{ value := [47] }, { value := [123, 97, 125, 47, 120], kind := .named, name := [97], suffix := [47, 120] }] ∧
+    exBX ≠ exAX := ⟨by rfl, by rfl, by decide⟩
+example : UpToNames
+    [{ value := [47] }, { value := [123, 98, 125, 47, 120], kind := .named, name := [98], suffix := [47, 120] }]
+    [{ value := [47] }, { value := [123, 97, 125, 47, 120], kind := .named, name := [97], suffix := [47, 120] }] :=
+  .cons (.inl rfl) (.cons (.inr ⟨by decide, rfl, rfl, rfl, rfl, .inr (by decide)⟩) .nil)
 
 end Mux.C17
